@@ -211,6 +211,7 @@ func replayInstall(c *core.Ctx, lfsBin string, b *installBehaviour, idx int) (*c
 		return hs, cs
 	}
 	prevH, prevC := snapshot()
+	var beforePrev map[string]string // hook classes before the previous step
 	var cmds []string
 	var lastOpKey string
 	lastExit := -99
@@ -331,6 +332,17 @@ func replayInstall(c *core.Ctx, lfsBin string, b *installBehaviour, idx int) (*c
 				}
 			}
 		}
+		// ... and more generally: a hook that was absent before an install (update, implicit install) is absent
+		// again after the uninstall that follows it, whatever else stood in the way of that install
+		if s.A == "uninstall" && i > 0 && beforePrev != nil && (b.Steps[i-1].A == "install" || b.Steps[i-1].A == "update" || b.Steps[i-1].A == "implicit") {
+			for _, h := range hooks {
+				if beforePrev[h] == "absent" && curH[h] != "absent" {
+					v := mk("uninstall-restores", fmt.Sprintf("hook %s was absent before `%s`, and after that command and uninstall it is left behind (%s)", h, b.Steps[i-1].A, curH[h]))
+					v.Fields["after"] = b.Steps[i-1].A
+					return v, nil
+				}
+			}
+		}
 		// drift layer: the classes the implementation model predicts
 		for _, h := range hooks {
 			if !inList(s.HookAllowed[h], curH[h]) {
@@ -345,6 +357,7 @@ func replayInstall(c *core.Ctx, lfsBin string, b *installBehaviour, idx int) (*c
 				}
 			}
 		}
+		beforePrev = prevH
 		prevH, prevC = curH, curC
 		lastOpKey = opKey
 		lastExit = r.Code
